@@ -357,6 +357,23 @@ class Transforms(Sub):
                         out.fail(sig + 'matrix-roundtrip', 'MatrixArray round trip (%s first) does not restore pair (%d,%d)' % (direction, i, j))
             if MA.space != src_space:
                 out.fail(sig + 'space-flag', 'space flag not restored by the inverse MatrixArray transform')
+            # an array that is symmetric only to rounding (as products and inverses inside the library are): the documented
+            # behaviour is that symmetry is enforced -- the result is exactly symmetric, each pair the transform of the (a<=b) entry
+            if rank >= 2:
+                MB = build.sym_matrix_array(spec['m'], n, rank, space=src_space)
+                for i in range(rank):
+                    for j in range(i):
+                        MB.data[:, i, j] = MB.data[:, i, j] * (1.0 + 3 * EPS) + 1e-300
+                upper = MB.data.copy()
+                fn(MB)
+                if not np.array_equal(MB.data, np.transpose(MB.data, (0, 2, 1)), equal_nan=True):
+                    out.fail(sig + 'symmetry-not-enforced', 'MatrixArray_to_%s of an array that is symmetric only to rounding returns an asymmetric array '
+                             '(max |M_ab - M_ba| = %.3g)' % (direction, float(np.max(np.abs(MB.data - np.transpose(MB.data, (0, 2, 1)))))))
+                else:
+                    for i in range(rank):
+                        for j in range(i, rank):
+                            if not np.array_equal(MB.data[:, i, j], vec(np.ascontiguousarray(upper[:, i, j])), equal_nan=True):
+                                out.fail(sig + 'matrix-vs-vector', 'pair (%d,%d) of a nearly symmetric array is not the transform of its (a<=b) entry' % (i, j))
         out.nontrivial = bool(np.ptp(f) > 0) and n >= 2
         out.label('rank=%d' % rank, 'pow2' if (n & (n - 1)) == 0 else 'non-pow2', 'via-' + ('dr' if 'dr' in spec['domain'] else 'dk'))
         return out
